@@ -91,7 +91,8 @@ def degree(e: Expr, decl: DegDecl):
     if t in ("bool", "str", "size", "iv"):
         return D0
     if t == "in":
-        return D(decl.inputs.get(e[1], decl.default_input))
+        v = decl.inputs.get(e[1], decl.default_input)
+        return D(v(e[2]) if callable(v) else v)
     if t == "sym":
         return D(decl.syms.get(e[1], decl.default_sym))
     if t == "lin":
